@@ -31,7 +31,7 @@ def check(repo, tier="quick"):
     res.rule("C03.b", "picture parse codes follow the profile (and fragment setting) as vc2_data_tables.PROFILES allows; the slice list name follows the same profile")
     res.rule("C03.c", "picture numbers: the picture header / every fragment header of a picture carries the input picture's pic_num when given, and nothing else writes picture_number")
     res.rule("C03.d", "fragments: first fragment holds the transform parameters and no slices; every slice is appended exactly once, in raster order; a new fragment starts exactly when the previous one holds fragment_slice_count slices and carries the coordinates of its first slice")
-    res.rule("C03.e", "shared clauses re-evaluated: data-unit patterns (C19.e), version implications (C07.c), level-filtered sequence headers (C15.e), lossless slice-size scaler fits the length field (C04.f)")
+    res.rule("C03.e", "shared clauses re-evaluated: data-unit patterns (C19.e), every rule of C07 (the encoder leaves parse offsets, picture numbers and major_version to automatic filling), every rule of C15 (the emitted sequence header decodes to the configured format), lossless slice-size scaler fits the length field (C04.f)")
     res.rule("C03.g", "no call in the encoder passes same-named coordinates/sizes to the wrong parameters, and no size guard is followed by a further decrement of the guarded quantity")
     res.rule("C03.f", "scratch State dictionaries the encoder builds for the pseudocode helpers (slice_bytes, picture_dimensions, ...) bind every key to its own source: codec_features[k] under key k, width()/height() of the slice array under the _x/_y key, a same-named local under its own name")
 
@@ -50,7 +50,7 @@ def check(repo, tier="quick"):
     res.floor("C03.b", 4)
     res.floor("C03.c", 3)
     res.floor("C03.d", 6)
-    res.floor("C03.e", 10)
+    res.floor("C03.e", 150)
     res.info["decided_elsewhere"] = {"sequence header encodes the format, accepted under the level": "C15", "level-constrained values": "C16", "ordering search": "C19 (known finding K2)", "autofilled offsets/versions/numbers": "C07", "lossless pixel exactness": "C04, C11", "validator accepts": "behaviour; the validator's own totality is C02"}
     res.assumptions = ["acceptance by the validator and equality of decoded pictures are behaviour and are not decided", "slice payload sizes and quantisation (C12-C14) are arithmetic on runtime values"]
     res.trusted = ["vc2_data_tables PROFILES table (parsed from the installed package source)"]
@@ -337,8 +337,8 @@ def rule_e(repo, res):
     c19.rule_e(repo, sub)
     for o in sub.obs:
         res._add(Ob("C03.e", "%s/%s" % (o.rule, o.key), o.where, o.status, o.detail, o.by, o.path))
-    sub = Result("C07")
-    c07.rule_c(repo, sub, repo.mod(c07.AF))
+    # the whole of C07: the encoder's sequences leave offsets, picture numbers and major_version to automatic filling
+    sub = c07.check(repo, "quick")
     for o in sub.obs:
         res._add(Ob("C03.e", "%s/%s" % (o.rule, o.key), o.where, o.status, o.detail, o.by, o.path))
     from . import c04
@@ -347,8 +347,13 @@ def rule_e(repo, res):
     c04.rule_f(repo, sub)
     for o in sub.obs:
         res._add(Ob("C03.e", "%s/%s" % (o.rule, o.key), o.where, o.status, o.detail, o.by, o.path))
-    sub = Result("C15")
-    c16.level_filter_rule(repo, sub, "C15.e")
+    from .. import quantmatrix
+
+    quantmatrix.rule(repo, res, "C03.e")
+    # the whole of C15: the sequence header make_sequence emits is the first of iter_sequence_headers
+    from . import c15
+
+    sub = c15.check(repo, "quick")
     for o in sub.obs:
         res._add(Ob("C03.e", "%s/%s" % (o.rule, o.key), o.where, o.status, o.detail, o.by, o.path))
 
